@@ -29,6 +29,7 @@ import os
 import re
 import sys
 import copy as _copy
+import types
 
 HERE = os.path.dirname(os.path.abspath(__file__))
 VERIF = os.path.dirname(HERE)
@@ -145,7 +146,7 @@ METHODS = {
     'set_index': F(), 'reindex': F(), 'dropna': F(), 'clip': F(),
     'intersection': F(tag=None), 'difference': F(tag=None), 'union': F(tag=None),
     'split': F(tag='list'), 'join': F(tag=None), 'format': F(tag=None), 'rjust': F(tag=None),
-    'keys': C('recv'), 'items': C('recv'), 'get': A(1, load=('recv',)),
+    'keys': C('recv'), 'items': C('recv'), 'values': C('recv'), 'get': A(1, load=('recv',)),
     'as_euler': F(), 'as_matrix': F(), 'as_quat': F(), 'as_rotvec': F(), 'inv': F(tag='rot'),
     'derivative': A('recv', tag='callable'), 'antiderivative': A('recv', tag='callable'),
     # containers / in-place
@@ -277,6 +278,8 @@ class Program:
     def __init__(self, repo):
         self.repo = repo
         self.pending = []
+        self.public_classes = set()
+        self.escaped, self.escaped_prev = set(), set()
         self.argtags = {}        # (fid, param) -> set of tags of the actual arguments at pyins call sites
         self.param_tags = {}     # inferred for private functions from the previous pass
         self.public = set()
@@ -509,21 +512,43 @@ class Program:
         return name in self._lists[mod] or isinstance(val, (ast.List, ast.Dict, ast.Tuple, ast.Set))
 
     # by-name candidates for attribute access on values of unknown class
+    def open_classes(self):
+        """classes whose instances may turn up where the class is not known statically: the public ones
+        (a caller can hand them in) and those whose instances are stored / passed on somewhere"""
+        return [c for c in self.classes.values()
+                if c.cid in self.public_classes or c.cid in self.escaped_prev]
+
     def slot_candidates(self, attr):
-        out = []
-        for c in self.classes.values():
-            if attr in c.slots_assigned:
-                out.append(c)
-        return out
+        return [c for c in self.open_classes() if attr in c.all_slots()]
 
     def field_candidates(self, attr):
-        return [c for c in self.classes.values() if c.is_record() and attr in c.all_fields()]
+        return [c for c in self.open_classes() if c.is_record() and attr in c.all_fields()]
 
     def classattr_candidates(self, attr):
-        return [c for c in self.classes.values() if attr in c.attrs]
+        out = []
+        for c in self.open_classes():
+            o = c.find_attr(attr)
+            if o is not None and o not in out:
+                out.append(o)
+        return out
 
     def method_candidates(self, attr):
-        return [c.methods[attr] for c in self.classes.values() if attr in c.methods]
+        out = []
+        for c in self.open_classes():
+            m = c.find_method(attr)
+            if m is not None and m not in out:
+                out.append(m)
+        return out
+
+
+def imm_literal(node):
+    """a list / tuple / dict literal whose leaves are all constants"""
+    if isinstance(node, (ast.List, ast.Tuple, ast.Set)):
+        return all(isinstance(e, ast.Constant) or imm_literal(e) for e in node.elts)
+    if isinstance(node, ast.Dict):
+        return all(k is not None and isinstance(k, ast.Constant) for k in node.keys) and \
+            all(isinstance(e, ast.Constant) or imm_literal(e) for e in node.values)
+    return False
 
 
 def is_immutable_default(node):
@@ -629,6 +654,9 @@ class FT:
         self.explicit = params
         self.fnvals = {}
         self.elemtag = {}
+        self.objslots = {}
+        self.immleaf = set()
+        self.strvals = {}
         self.gen_var = None
         self.ret_elemtags = []
         self.ret_tags = []
@@ -668,6 +696,11 @@ class FT:
 
     def emit(self, *st):
         self.stmts.append(tuple(st))
+        if st[0] in ('Store', 'Call', 'CallNew'):
+            for v in ([st[2]] if st[0] == 'Store' else st[3]):
+                t = self.tags.get(v)
+                if isinstance(t, tuple) and t[0] == 'inst':
+                    self.P.escaped.add(t[1])
 
     def fresh(self, hint, tag=None):
         v = self.new(hint)
@@ -692,6 +725,12 @@ class FT:
         if self.P.const_is_list(mod, name):
             self.tags[v] = 'list'
         val = self.P.consts[mod].get(name)
+        if imm_literal(val):
+            self.immleaf.add(v)          # a literal of numbers / strings: its elements are immutable values
+        if isinstance(val, ast.Call) and isinstance(val.func, (ast.Name, ast.Attribute)):
+            r = self.P.resolve_name(mod, val.func)
+            if r and r[0] == 'class':
+                self.tags[v] = ('inst', r[1])             # a module-level instance of a pyins class
         if isinstance(val, (ast.Dict, ast.List, ast.Tuple)):
             elts = val.values if isinstance(val, ast.Dict) else val.elts
             fns = []
@@ -838,7 +877,21 @@ class FT:
         if self.is_self(node.value):
             return self.self_attr(node)
         v = self.ev(node.value)
+        if v in self.objslots:
+            return self.with_obj(v, lambda: self.self_attr(node))
         return self.value_attr(node, v, attr)
+
+    def with_obj(self, obj, f):
+        """run f with `obj` (a locally kept helper object) in the role of self"""
+        saved = (self.selfvar, self.slotroot, self.fi)
+        ci = self.P.classes[self.tag(obj)[1]]
+        self.selfvar, self.slotroot = obj, self.objslots[obj]
+        self.fi = types.SimpleNamespace(fid=self.fi.fid, cls=ci, module=self.fi.module, node=self.fi.node,
+                                        params=self.fi.params, kind=self.fi.kind, parent=self.fi.parent)
+        try:
+            return f()
+        finally:
+            self.selfvar, self.slotroot, self.fi = saved
 
     def self_attr(self, node):
         attr = node.attr
@@ -864,7 +917,15 @@ class FT:
             return self.call_py(meth, self.selfvar, [], {}, node)
         self.bad(node, "attribute of self is neither a slot, a class constant nor a property")
 
+    def lost_object(self, v):
+        t = self.tag(v)
+        if isinstance(t, tuple) and t[0] == 'inst' and v not in self.objslots \
+                and t[1] not in self.P.public_classes and t[1] not in self.P.escaped_prev \
+                and not self.P.classes[t[1]].is_record():
+            self.P.escaped.add(t[1])       # the translation is repeated with summaries for this class
+
     def value_attr(self, node, v, attr):
+        self.lost_object(v)
         t = self.tag(v)
         slots, cattrs, props = [], [], []
         known = isinstance(t, tuple) and t[0] == 'inst'
@@ -896,7 +957,10 @@ class FT:
         if known and (slots or cattrs or props):
             lib_alias = lib_fresh = False
         if not (slots or cattrs or props or lib_alias or lib_fresh):
-            self.bad(node, "attribute is not classified")
+            # may become classified once it is known which private classes' instances are stored / passed on
+            self.P.pending.append(f"{self.fi.fid} (pyins/{self.m}.py:{getattr(node, 'lineno', '?')}): "
+                                  f"attribute is not classified: {ast.unparse(node)[:60]}")
+            lib_alias = True
         res = self.fresh('.' + attr)
         for s in sorted(set(slots)):
             self.emit('StateRead', s, v)
@@ -928,6 +992,13 @@ class FT:
         return res
 
     def ev_Subscript2(self, node, v):
+        if v in self.immleaf and not isinstance(node.slice, ast.Slice):
+            x = self.fresh('elem', 'const')
+            self.immleaf.add(x)
+            return x
+        return self.ev_Subscript3(node, v)
+
+    def ev_Subscript3(self, node, v):
         if self.is_listlike(node.slice) and self.tag(v) != 'list':
             return self.fresh('idx', 'val')
         if self.tag(v) == 'list':
@@ -1137,6 +1208,10 @@ class FT:
         return res
 
     def item_of(self, it):
+        if it in self.immleaf:
+            x = self.fresh('item', 'const')     # an immutable value (or a tuple of such)
+            self.immleaf.add(x)
+            return x
         x = self.item_of2(it)
         if it in self.elemtag and self.tag(it) == 'list':
             self.tags[x] = self.elemtag[it]
@@ -1274,7 +1349,10 @@ class FT:
             if cls.is_record():
                 self.emit('Mutate', obj)
                 self.emit('Store', obj, val)
+            names = self.names_of(name_node)
             for attr, (sname, root) in sorted(self.slotroot.items()):   # any slot may be the target
+                if names is not None and attr not in names:
+                    continue
                 self.emit('StateWrite', sname, self.selfvar)
                 self.emit('Assign', root, val)
                 self.slot_writes.append((sname, val))
@@ -1286,18 +1364,28 @@ class FT:
             self.emit('Store', obj, val)
         return self.fresh('none', 'const')
 
+    def names_of(self, name_node):
+        """the constant strings a name expression may evaluate to, if known"""
+        if isinstance(name_node, ast.Name) and name_node.id in self.env:
+            return self.strvals.get(self.env[name_node.id])
+        return None
+
     def dyn_getattr(self, node, obj, obj_node, name_node, default):
         if isinstance(name_node, ast.Constant) and isinstance(name_node.value, str):
             res = self.ev(ast.Attribute(value=obj_node, attr=name_node.value, ctx=ast.Load(), lineno=node.lineno))
         else:
             res = self.fresh('getattr')
             if obj == self.selfvar and self.selfvar is not None:
+                names = self.names_of(name_node)
                 for attr, (sname, root) in sorted(self.slotroot.items()):
+                    if names is not None and attr not in names:
+                        continue
                     self.emit('StateRead', sname, self.selfvar)
                     self.emit('Assign', res, root)
                 for c in self.fi.cls.mro():
                     for a in sorted(c.attrs):
-                        self.emit('Assign', res, self.read_classattr(c, a))
+                        if names is None or a in names:
+                            self.emit('Assign', res, self.read_classattr(c, a))
                 if self.fi.cls.is_record():
                     self.emit('Load', res, obj)
             else:
@@ -1338,6 +1426,7 @@ class FT:
         self.bad(node, f"call of {r[0]}")
 
     def method_call(self, node, v, attr, args, kws, need_plain):
+        self.lost_object(v)
         t = self.tag(v)
         cands = []
         known = isinstance(t, tuple) and t[0] == 'inst'
@@ -1392,6 +1481,15 @@ class FT:
             return obj
         obj = self.fresh(ci.cid.split('.')[-1], ('inst', ci.cid))
         init = ci.find_method('__init__')
+        if ci.cid not in self.P.public_classes and ci.cid not in self.P.escaped_prev \
+                and not any(k.cid in self.P.public_classes for k in self.P.subclasses[ci.cid]) \
+                and init is not None and init.fid not in self.inline_stack:
+            # a private helper class whose instances never leave the functions that create them: its
+            # state is kept in variables of this function and its methods are translated inline
+            self.objslots[obj] = {attr: (f"{owner.cid}.{attr}", self.new(f"{ci.cid.split('.')[-1]}.{attr}"))
+                                  for attr, owner in sorted(ci.all_slots().items())}
+            self.call_py(init, obj, args, kws, node)
+            return obj
         if init is not None:
             self.call_py(init, obj, args, kws, node, new=True)
         elif args or kws:
@@ -1417,7 +1515,12 @@ class FT:
             return recv is not None and recv == self.selfvar
         return True                                        # static / class method of the own class
 
-    def inline_call(self, fi, binding, node):
+    def can_inline_obj(self, fi, recv, new, unknown_args, single):
+        return (recv in self.objslots and fi.kind in ('method', 'property') and not new and not unknown_args
+                and single and fi.fid not in self.inline_stack
+                and len(self.inline_stack) < self.MAX_INLINE_DEPTH)
+
+    def inline_call(self, fi, binding, node, obj=None):
         saved = (self.fi, self.m, self.env, self.locals, self.globals, self.nested, self.bind_count,
                  self.loops, self.ret, self.clsname, self.selfvar, self.slotroot, self.param_vars)
         closure_env = dict(self.env) if fi.parent is not None else {}
@@ -1427,6 +1530,8 @@ class FT:
             body = fi.node.body
             if fi.cls is None and fi.parent is None:
                 self.selfvar, self.slotroot = None, {}
+            if obj is not None:
+                self.selfvar, self.slotroot = obj, self.objslots[obj]
             self.clsname = fi.params[0] if fi.kind == 'classmethod' else None
             self.fi, self.m = fi, fi.module
             self.env = closure_env
@@ -1527,6 +1632,11 @@ class FT:
                 full.append(t)
             else:
                 full.append(self.fresh('default_' + p, 'const'))
+        if self.can_inline_obj(fi, recv, new, unknown_args, single):
+            names = [fi.params[0]] + params
+            return self.inline_call(fi, dict(zip(names, full)), node, obj=recv)
+        if recv in self.objslots:
+            self.bad(node, "method of a locally kept helper object cannot be translated inline")
         if self.can_inline(fi, recv, new, unknown_args, single):
             names = ([fi.params[0]] if fi.kind in ('method', 'property') else []) + params
             return self.inline_call(fi, dict(zip(names, full)), node)
@@ -1561,6 +1671,14 @@ class FT:
             if data is not None:
                 self.emit('Assign', res, data)
             return res
+        if spec.get('elems') and not spec.get('mut') and not kws:
+            srcs = [w for i in spec['elems'] for w in
+                    (list(args) + ([recv] if recv is not None else []) if i == 'all' else
+                     [recv] if i == 'recv' else [args[i]] if isinstance(i, int) and i < len(args) else [])]
+            if srcs and all(w in self.immleaf for w in srcs):
+                res = self.fresh(q.split('.')[-1] or q, 'list')   # a fresh container of immutable values
+                self.immleaf.add(res)
+                return res
         res = self.fresh(q.split('.')[-1] or q)
         allv = list(args) + [v for v, _ in kws.values()]
         fnargs = [v for v in allv if v in self.fnvals]
@@ -1660,6 +1778,14 @@ class FT:
                     and t.attr in self.fi.cls.all_fields():
                 self.emit('Mutate', self.selfvar)
                 self.emit('Store', self.selfvar, v)
+            elif not self.is_self(t.value) and isinstance(t.value, ast.Name) \
+                    and self.env.get(t.value.id) in self.objslots:
+                o = self.env[t.value.id]
+                if t.attr not in self.objslots[o]:
+                    self.bad(t, "assignment to an unknown slot of a helper object")
+                sname, root = self.objslots[o][t.attr]
+                self.emit('StateWrite', sname, o)
+                self.emit('Assign', root, v)
             elif self.is_self(t.value):
                 if t.attr not in self.slotroot:
                     self.bad(t, "assignment to an unknown slot")
@@ -1667,6 +1793,8 @@ class FT:
                 self.emit('StateWrite', sname, self.selfvar)
                 self.emit('Assign', root, v)
                 self.slot_writes.append((sname, v))
+                if isinstance(self.tag(v), tuple):
+                    self.P.escaped.add(self.tag(v)[1])
             else:
                 obj = self.ev(t.value)
                 self.attr_store_slots(obj, t.attr)
@@ -1733,6 +1861,8 @@ class FT:
         if s.value is not None:
             v = self.ev(s.value)
             self.emit('Assign', self.ret, v)
+            if len(self.inline_stack) == 1 and isinstance(self.tag(v), tuple):
+                self.P.escaped.add(self.tag(v)[1])          # handed to an unknown caller
             self.ret_tags.append(self.tag(v))
             self.ret_elemtags.append(self.elemtag.get(v))
             if v in self.fnvals:
@@ -1813,6 +1943,9 @@ class FT:
                 fns = [e for v in vs for e in self.fnvals.get(v, [])]
                 if fns:
                     self.fnvals[p] = fns
+                for v in vs:
+                    if v in self.objslots:                  # two objects may meet here: use summaries for this class
+                        self.P.escaped.add(self.tag(v)[1])
                 out[n] = p
         return out
 
@@ -1930,6 +2063,36 @@ class FT:
     def st_While(self, s):
         return self.loop(s, lambda: self.ev(s.test))
 
+    def literal_of(self, node):
+        """the literal tuple/list AST a name / attribute stands for (module or class constant)"""
+        if isinstance(node, (ast.Tuple, ast.List)):
+            return node
+        if isinstance(node, ast.Name) and node.id not in self.env and node.id not in self.locals:
+            r = self.P.resolve_name(self.m, node)
+            if r and r[0] == 'const':
+                v = self.P.consts[r[1]].get(r[2])
+                return v if isinstance(v, (ast.Tuple, ast.List)) else None
+        if isinstance(node, ast.Attribute) and (self.is_self(node.value) or self.is_cls(node.value)) \
+                and node.attr not in self.slotroot:
+            o = self.fi.cls.find_attr(node.attr)
+            if o is not None and isinstance(o.attrs[node.attr], (ast.Tuple, ast.List)):
+                return o.attrs[node.attr]
+        return None
+
+    def note_strings(self, target, lit):
+        if lit is None:
+            return
+        if isinstance(target, ast.Name):
+            if all(isinstance(e, ast.Constant) and isinstance(e.value, str) for e in lit.elts) and lit.elts:
+                self.strvals[self.env[target.id]] = {e.value for e in lit.elts}
+        elif isinstance(target, (ast.Tuple, ast.List)):
+            rows = lit.elts
+            if rows and all(isinstance(r, (ast.Tuple, ast.List)) and len(r.elts) == len(target.elts) for r in rows):
+                for j, t in enumerate(target.elts):
+                    if isinstance(t, ast.Name) and all(isinstance(r.elts[j], ast.Constant) and
+                                                       isinstance(r.elts[j].value, str) for r in rows):
+                        self.strvals[self.env[t.id]] = {r.elts[j].value for r in rows}
+
     def st_For(self, s):
         it_node = s.iter
         if isinstance(it_node, ast.Call) and isinstance(it_node.func, ast.Name) \
@@ -1945,9 +2108,11 @@ class FT:
                         self.bind_target(t, self.item_of(iv))
                 return self.loop(s, header2)
         it = self.ev(s.iter)
+        lit = self.literal_of(s.iter)
 
         def header():
             self.bind_target(s.target, self.item_of(it))
+            self.note_strings(s.target, lit)
         return self.loop(s, header)
 
     def st_Break(self, s):
@@ -2277,8 +2442,12 @@ def translate_all(repo):
     columns = {c for v in util_lists.values() for c in v} | {'dt'}
     slotinfo = {}
     prog.public = set(public_fids(prog))
-    for rnd in range(10):
+    for m in PUBLIC_MODULES:
+        for c in autosummary(prog, m)['Classes']:
+            prog.public_classes.add(f"{m}.{c}")
+    for rnd in range(12):
         prog.argtags = {}
+        prog.escaped = set()
         prog.pending = []
         fts = {}
         todo = list(prog.funcs.values())
@@ -2365,16 +2534,19 @@ def translate_all(repo):
         info = {}
         for sname, d in new.items():
             # None / numeric literals are neutral: a slot that holds only arrays / tables (or None)
+            kinds = d['tags'] - {'const'}
+            one = next(iter(kinds)) if len(kinds) == 1 else None
             info[sname] = dict(cat=('private', 'ownref', 'param')[d['cat']],
-                               tag='val' if d['tags'] - {'const'} == {'val'} else None)
+                               tag=one if one in ('val', 'list') else None)
         ptags = {k: next(iter(v)) for k, v in prog.argtags.items() if len(v) == 1 and None not in v}
-        if info == slotinfo and ptags == prog.param_tags:
+        if info == slotinfo and ptags == prog.param_tags and prog.escaped <= prog.escaped_prev:
             if prog.pending:
                 raise Unsupported('; '.join(sorted(set(prog.pending))[:5]))
             return dict(prog=prog, fts=fts, funcs=funcs, order=order, S=S, sols=sols, slotinfo=info,
                         util_lists=util_lists)
         slotinfo = info
         prog.param_tags = ptags
+        prog.escaped_prev = prog.escaped_prev | prog.escaped
     raise Unsupported("slot / parameter classification did not stabilise")
 
 
@@ -2929,6 +3101,7 @@ def run_microtests():
         'permutation': [lambda: (np.random.RandomState(1), (5,))],
         'derivative': [lambda: (__import__('scipy.interpolate').interpolate.CubicSpline(d()['t'], d()['A']), ())],
         'antiderivative': [lambda: (__import__('scipy.interpolate').interpolate.CubicSpline(d()['t'], d()['A']), ())],
+        'values': [lambda: ({'a': d()['A']}, ())],
         'keys': [lambda: ({'a': d()['A']}, ())], 'items': [lambda: ({'a': d()['A']}, ())], 'get': [lambda: ({'a': d()['A']}, ('a',))],
         'split': [lambda: ('bias_x', ('_',))], 'join': [lambda: (',', (['a', 'b'],))], 'format': [lambda: ('{}', (1,))],
         'rjust': [lambda: ('a', (3,))],
